@@ -1,4 +1,4 @@
-"""C14 -- every valid model configuration yields outputs of the contracted shape (UNet and ConvNeXt families, shape level).
+"""C14 -- every valid model configuration yields outputs of the contracted shape (UNet, ConvNeXt and Swin-T families, shape level).
 
 The REAL Model / UNet / ConvNextWrapper / Encoder / Decoder / Head modules are built for every configuration of a finite grid
 and their real forward methods run on a shape-only tensor stand-in (symx/shapefe.py) whose height and width are SYMBOLIC
@@ -14,6 +14,8 @@ ID = "C14"
 FUNCTIONS = [("sleap_nn.architectures.model", "Model.__init__"), ("sleap_nn.architectures.model", "Model.forward"), ("sleap_nn.architectures.unet", "UNet.__init__"),
              ("sleap_nn.architectures.unet", "UNet.from_config"), ("sleap_nn.architectures.unet", "UNet.forward"), ("sleap_nn.architectures.convnext", "ConvNextWrapper.__init__"),
              ("sleap_nn.architectures.convnext", "ConvNextWrapper.forward"), ("sleap_nn.architectures.convnext", "ConvNeXtEncoder.__init__"),
+             ("sleap_nn.architectures.swint", "SwinTWrapper.__init__"), ("sleap_nn.architectures.swint", "SwinTWrapper.forward"), ("sleap_nn.architectures.swint", "SwinTransformerEncoder.__init__"),
+             ("sleap_nn.architectures.swint", "SwinTransformerEncoder.forward"),
              ("sleap_nn.architectures.encoder_decoder", "Encoder.__init__"), ("sleap_nn.architectures.encoder_decoder", "Encoder.forward"),
              ("sleap_nn.architectures.encoder_decoder", "Decoder.__init__"), ("sleap_nn.architectures.encoder_decoder", "Decoder.forward"),
              ("sleap_nn.architectures.encoder_decoder", "SimpleUpsamplingBlock.forward"), ("sleap_nn.architectures.encoder_decoder", "SimpleConvBlock.__init__"),
@@ -29,8 +31,9 @@ EXPLANATION = ("For every configuration of a finite grid (backbone family x max_
 ASSUMPTIONS = ["input sides are positive multiples of max_stride (the property's precondition); batch size 1 or 2 and in_channels 1 are concrete",
                "evaluation mode (batch_norm in training mode is rejected by the front end)",
                "each torch kernel obeys its documented shape rule (validated per run on concrete sizes against real torch for the same modules)"]
-STUBS = ["torch / torch.nn.functional kernels -> shape rules (symx/shapefe.py) via the __torch_function__ protocol", "architectures.common.torch -> proxy giving torch.ceil(torch.tensor(x)).item() its scalar meaning for a symbolic x"]
-OUTSIDE = ["Swin-T backbone (window partitioning reshapes with size-dependent padding and masks: not expressible as shape rules over symbolic extents without enumerating sizes)",
+STUBS = ["torch / torch.nn.functional kernels -> shape rules (symx/shapefe.py) via the __torch_function__ protocol",
+         "torchvision shifted_window_attention -> its documented contract (B,H,W,C) -> (B,H,W,C) with channel/head checks (validated against the real function on concrete sizes in every run); patch merging, patch embedding, norms and MLPs of Swin-T run for real on the stand-in", "architectures.common.torch -> proxy giving torch.ceil(torch.tensor(x)).item() its scalar meaning for a symbolic x"]
+OUTSIDE = ["the inside of torchvision's window attention (window partitioning with size-dependent padding and masks) -- replaced by its shape contract",
            "output VALUES: determinism and independence from batch-mates / earlier calls at the value level (kernels behind FFI; only shape-level statefulness is decided)",
            "configurations outside the listed grid; pretrained weights; in_channels other than 1"]
 REQUIRED_WITNESSES = ["symbolic-forward-completed", "second-call-checked"]
@@ -44,6 +47,7 @@ def bounds(tier):
     return {"input size": "k*max_stride x l*max_stride for ALL integers k, l >= 1 (two independent calls)", "batch": [1, 2],
             "unet grid": "max_stride {8,16[,32]} x output_stride {1,2,4} x stem_stride {None,2[,4]} x filters_rate {2,1.5} x convs_per_block {1,2[,3]} x middle_block x up_interpolate",
             "convnext grid": "arch {tiny, custom 4-stage} x stem_patch_stride {2,4} x output_stride {1,2,4} x up_interpolate x convs_per_block {1,2}",
+            "swint grid": "arch {tiny, custom 4-stage} x stem_patch_stride {2,4} x output_stride {1,2,4} x up_interpolate x window_size {7,3}",
             "heads": "single_instance, centered_instance, centroid (stride = backbone output stride), bottomup (confmaps at the output stride with pafs at 1x or 2x of it, and pafs at the output stride with confmaps at 2x)"}
 
 
@@ -92,16 +96,33 @@ def _convnext_grid(tier):
     return out
 
 
+def _swint_grid(tier):
+    out = []
+    small = {"embed": 8, "depths": [1, 1, 2, 1], "num_heads": [1, 2, 4, 8]}
+    for mt, arch in ((("custom", small),) if tier == "quick" else (("custom", small), ("tiny", None))):
+        for stem in (2, 4):
+            for os_ in (1, 2, 4):
+                if os_ > stem:  # the decoder's last level is at stride stem/... (cf. the repaired head in_channels): keep heads on decoder levels
+                    pass
+                for up in (True, False):
+                    for win in ([7, 7], [3, 3]):
+                        out.append(("swint", {"in_channels": 1, "model_type": mt, "arch": arch, "patch_size": [4, 4], "window_size": win, "kernel_size": 3, "filters_rate": 2, "convs_per_block": 2,
+                                              "up_interpolate": up, "stem_patch_stride": stem, "output_stride": os_, "max_stride": stem * 8}))
+    return out
+
+
 def _models(tier):
     """list of (backbone_type, backbone_cfg, model_type, head_cfg)"""
     out = []
-    for bt, bc in _unet_grid(tier) + _convnext_grid(tier):
+    for bt, bc in _unet_grid(tier) + _convnext_grid(tier) + _swint_grid(tier):
         for mt, hc in _heads(bc["output_stride"], bc["max_stride"]):
             out.append((bt, bc, mt, hc))
     return out
 
 
 N_CHUNKS = 32
+import torchvision.models.swin_transformer as _sw
+REAL_SWIN_ATTENTION = _sw.shifted_window_attention  # captured before any stub is installed (module import time)
 
 
 def configs(tier, seed):
@@ -127,6 +148,7 @@ def _install():
     import sleap_nn.architectures.common as common
     from symx import shapefe
     common.torch = shapefe.COMMON_TORCH
+    shapefe.install_swin_stubs()
     return shapefe
 
 
@@ -242,7 +264,7 @@ def _validate(cfg):
     rep = Report(cfg)
     r = rng(cfg["seed"], "c14")
     models = _models("quick")
-    pick = r.sample(range(len(models)), 24)
+    pick = r.sample(range(len(models)), 24) + r.sample([i for i, m_ in enumerate(models) if m_[0] == "swint"], 8)
     name = "V-shape-rules-agree-with-real-torch"
     for idx in pick:
         bt, bc, mt, hc = models[idx]
@@ -256,12 +278,15 @@ def _validate(cfg):
             except S.ShapeErr as e:
                 sym = "rejected"
             common.torch = torch
+            import torchvision.models.swin_transformer as sw_
+            sw_.shifted_window_attention = REAL_SWIN_ATTENTION
             try:
                 real = _real_shapes(_build(bt, bc, mt, hc), sizes)
             except RuntimeError:
                 real = "rejected"
             finally:
                 common.torch = S.COMMON_TORCH
+                sw_.shifted_window_attention = S.swin_attention_stub
             ok = sym == real
         except Exception as e:  # noqa
             ok, sym, real = False, f"{type(e).__name__}: {e}", None
